@@ -61,7 +61,116 @@ fn one<B: Backend>(rep: &mut Report, kind: Wk, key_raw: &[u8], s: &Secrets, sub:
     rep.sample_class(&class, 1, || detail("round-tripped", &blob));
 }
 
+/// a PKE key pair from explicit secret material (Ed25519 seed / P-384 scalar)
+fn pke_pair_from<B: Backend>(secret: &[u8]) -> Option<(Vec<u8>, Vec<u8>)> {
+    match B::VER {
+        3 => {
+            use p384::elliptic_curve::sec1::ToEncodedPoint;
+            let k = p384::SecretKey::from_slice(secret).ok()?;
+            Some((secret.to_vec(), k.public_key().to_encoded_point(true).as_bytes().to_vec()))
+        }
+        2 | 4 => {
+            let sk = ed25519_dalek::SigningKey::from_bytes(secret[..32].try_into().ok()?);
+            let pk = sk.verifying_key().to_bytes().to_vec();
+            Some(([&secret[..32], &pk[..]].concat(), pk))
+        }
+        _ => None,
+    }
+}
+
+/// Families of *related* secrets used back to back on one thread: recipients whose secret material
+/// differs in a single byte (so any two share a long prefix and a long suffix - counters, labelled
+/// seeds), wrapping keys and passwords likewise. Every member must round-trip whatever was used
+/// immediately before it: wrap-then-unwrap per member, then all blobs unwrapped in order and in
+/// reverse order.
+fn related_secrets<B: Backend>(opts: &Opts, rep: &mut Report) {
+    if opts.shard != 2 % opts.nshards && opts.only.is_none() {
+        return;
+    }
+    let stream = format!("c05.{}.related", B::NAME);
+    let mut rng = Rng::derive(opts.seed, &stream, 0);
+    let base = Secrets::gen_for::<B>(&mut rng);
+    for round in 0..opts.size(2, 12) {
+        let seed_len = if B::VER == 3 { 48 } else { 32 };
+        let base_secret: Vec<u8> = match round {
+            0 => vec![0u8; seed_len],
+            1 => {
+                let mut b = rng.bytes(seed_len);
+                b[0] &= 0x7f;
+                b
+            }
+            _ => {
+                let mut b = rng.bytes(seed_len);
+                b[0] &= 0x7f;
+                b
+            }
+        };
+        let base_wk: [u8; 32] = if round == 0 { [0; 32] } else { rng.arr() };
+        let base_pw = if round == 0 { vec![b'a'; 32] } else { rng.bytes(32) };
+        for &kind in WKS {
+            if kind == Wk::Seal && B::VER == 1 {
+                continue; // RSA recipients come from a fixed pool; no related keys to derive
+            }
+            let key_raw = gen_wrapped_key::<B>(kind, &mut rng);
+            // the family: member i differs from the base in byte i only (member for the counter-like round 0:
+            // big-endian counter in the last bytes)
+            let mut members: Vec<Secrets> = vec![];
+            for i in 0..32usize {
+                let mut m = base.clone();
+                let delta = 1 + (i as u8 % 7);
+                if kind == Wk::Seal {
+                    let mut sec = base_secret.clone();
+                    let at = seed_len - 1 - i; // low-order end first: counters
+                    sec[at] = sec[at].wrapping_add(delta);
+                    let Some((sk, pk)) = pke_pair_from::<B>(&sec) else { continue };
+                    m.pke_sk = sk;
+                    m.pke_pk = pk;
+                } else if kind.is_pie() {
+                    m.wk = base_wk;
+                    m.wk[31 - i] = m.wk[31 - i].wrapping_add(delta);
+                } else {
+                    m.pass = base_pw.clone();
+                    m.pass[31 - i] = m.pass[31 - i].wrapping_add(delta);
+                }
+                members.push(m);
+            }
+            let sig = format!("C05|{}|{}", B::NAME, kind.name());
+            let mut blobs: Vec<Option<String>> = vec![];
+            for (i, m) in members.iter().enumerate() {
+                let d = |what: &str| json!({"backend": B::NAME, "kind": kind.name(), "member": i, "what": what, "wrapping_key": hx(&m.wk), "password": hx_short(&m.pass), "recipient_secret": hx_short(&m.pke_sk), "previous_member_secret": if i > 0 { hx_short(if kind == Wk::Seal { &members[i - 1].pke_sk } else if kind.is_pie() { &members[i - 1].wk } else { &members[i - 1].pass }) } else { String::new() }});
+                let b = match guard(|| wrap::<B>(kind, &key_raw, m)) {
+                    Ok(Ok(b)) => b,
+                    _ => {
+                        rep.violation(&format!("{sig}|wrap-error:related-secrets"), d("wrap failed"));
+                        blobs.push(None);
+                        continue;
+                    }
+                };
+                match guard(|| unwrap::<B>(kind, &b, m)) {
+                    Ok(Ok(k)) if k == key_raw => {}
+                    Ok(Ok(_)) => rep.violation(&format!("{sig}|mismatch:related-secrets"), d("unwrapped to a different key right after a related secret was used")),
+                    Ok(Err(e)) => rep.violation(&format!("{sig}|unwrap-error:{}:related-secrets", err_kind(&e)), d("own output rejected right after a related secret was used on this thread")),
+                    Err(pn) => rep.violation(&format!("{sig}|unwrap-panic"), d(&pn)),
+                }
+                blobs.push(Some(b));
+                rep.case(&format!("{}.{}.related-secrets", B::NAME, kind.name()), fnv_parts(&[B::NAME.as_bytes(), kind.name().as_bytes(), &m.wk, &m.pass, &m.pke_sk]), true);
+            }
+            // all blobs exist: unwrap them strictly back to back, forwards then backwards
+            let order: Vec<usize> = (0..members.len()).chain((0..members.len()).rev()).collect();
+            for i in order {
+                let Some(b) = &blobs[i] else { continue };
+                if !matches!(guard(|| unwrap::<B>(kind, b, &members[i])), Ok(Ok(k)) if k == key_raw) {
+                    rep.violation(&format!("{sig}|unwrap-fails-in-sequence:related-secrets"), json!({"backend": B::NAME, "kind": kind.name(), "member": i, "blob": b.chars().take(300).collect::<String>(), "recipient_secret": hx_short(&members[i].pke_sk), "wrapping_key": hx(&members[i].wk), "password": hx_short(&members[i].pass)}));
+                    break;
+                }
+            }
+            rep.sample_class(&format!("{}.{}.related-secrets", B::NAME, kind.name()), 1, || json!({"backend": B::NAME, "kind": kind.name(), "members": members.len(), "outcome": "every member round-trips in sequence"}));
+        }
+    }
+}
+
 fn backend<B: Backend>(opts: &Opts, rep: &mut Report) {
+    related_secrets::<B>(opts, rep);
     let stream = format!("c05.{}", B::NAME);
     let mut idx = 0u64;
     let mut base_rng = Rng::derive(opts.seed, &stream, 0);
@@ -201,7 +310,7 @@ pub fn run(opts: &Opts) {
     for_backends!(opts, backend, opts, &mut rep);
     rep.set(
         "rule",
-        json!("cases = (backend, kind in {local/secret-wrap.pie, local/secret-pw, seal}, wrapped key, wrapping key / password+params / recipient) wrapped with the library's randomness, serialised, parsed, unwrapped; body length compared with the format's table; 'repeat' cases wrap one tuple N times to vary the RNG outcome (counted once in distinct); RSA-KEM ciphertexts / ephemeral keys with a leading zero byte are counted"),
+        json!("related secrets: per kind 32 recipients / wrapping keys / passwords that differ from a base in one byte each (low-order end first, incl. counter-like all-zero bases), wrapped and unwrapped back to back on one thread, then all blobs unwrapped forwards and backwards; cases = (backend, kind in {local/secret-wrap.pie, local/secret-pw, seal}, wrapped key, wrapping key / password+params / recipient) wrapped with the library's randomness, serialised, parsed, unwrapped; body length compared with the format's table; 'repeat' cases wrap one tuple N times to vary the RNG outcome (counted once in distinct); RSA-KEM ciphertexts / ephemeral keys with a leading zero byte are counted"),
     );
     rep.finish(opts);
 }
